@@ -37,12 +37,14 @@ func linalgBudgets(n int) map[string]int {
 		n = 1
 	}
 	return map[string]int{
-		"qr.francis":     30*n*n + n + 10,
-		"qr.block2x2":    30*n*n + n + 10,
-		"qr.symmetric":   30*n*n + n + 10,
-		"svd.golubkahan": 75*n*n + 10,
-		"msqrt.iter":     101, // 100 iterations and the loop entry that gives up
-		"msqrtInv.iter":  101,
+		"qr.francis": 30*n*n + n + 10,
+		// cofactor expansion: open finding C20-F2; polynomial budget, which n <= 6 respects
+		"determinant.minor": 10*n*n*n*n + 10,
+		"qr.block2x2":       30*n*n + n + 10,
+		"qr.symmetric":      30*n*n + n + 10,
+		"svd.golubkahan":    75*n*n + 10,
+		"msqrt.iter":        101, // 100 iterations and the loop entry that gives up
+		"msqrtInv.iter":     101,
 	}
 }
 
